@@ -11,7 +11,7 @@ CHECKS = {
          "Every observed execution of the real evaluator is compared with an independent naive ranker: quick covers every flush-table execution (all 4,089,228 sets with >=5 cards of a suit), every one of the 49,205 no-flush slots, 8M random sets and 10,000 sets in all 5040 orders; thorough covers all 133,784,560 sets (exhaustive over sets) plus 400,000 sets in all orders, and checks Ord/PartialOrd/Eq of consecutive hands against poker order; a dev-profile pass (overflow checks, debug assertions) re-evaluates every rank multiset and flush mask in child processes, and a concurrent pool stress has 16 threads re-evaluate pools of 2..65536 hands against the oracle (a shared cache inside the evaluator must survive concurrent use). Held means: no disagreement on any observed execution.",
          TRUST + " The 7! presentation orders per set are sampled (seed-hashed order per set), exhausted only for the listed sets.", "DESIGN.md §4 C01"),
  "C02": ("online boundary monitor + naive-enumerator oracle (multiset fingerprints per board position) over complete drains of the real evaluator; deal hook for coverage and for the non-termination guard (considered-deals budget + cycle detection on the odometer state)",
-         "Each case drains the real FlopExhaustiveEvaluator completely; every showdown is checked locally (flop order, unseen turn/river, combo from the player's own range, 5+2n distinct cards, probability = one of the exactly computable f32 products of the weights for up to four players) and the multiset of yielded deals must equal the naive enumeration position by position; for products of range sizes at and beyond 2^32 the first 60,000 showdowns must be legal, pairwise different and not end early; every case of up to 12,000 showdowns is also walked through nth/skip/step_by/take/last/count and compared with the next() loop; zero players and notation spelling combos low card first are covered, and no parsed range may hold one combo under two keys. Cases: 1-8 players, range sizes 1..1326 (255/256/257 boundaries), identical/overlapping/flop-blocked ranges, parsed and collected ranges, seeded random configurations.",
+         "Each case drains the real FlopExhaustiveEvaluator completely; every showdown is checked locally (flop order, unseen turn/river, combo from the player's own range, 5+2n distinct cards, probability = one of the exactly computable f32 products of the weights for up to four players) and the multiset of yielded deals must equal the naive enumeration position by position; for products of range sizes at and beyond 2^32 the first 60,000 showdowns must be legal, pairwise different and not end early; every case of up to 12,000 showdowns is also walked through nth/skip/step_by/take/last/count and compared with the next() loop; zero players and notation spelling combos low card first are covered, and no parsed range may hold one combo under two keys. Cases: 1-8 players, range sizes 1..1326 (255/256/257 boundaries), identical/overlapping/flop-blocked ranges, seats overlapping with chosen non-neighbouring seats only, parsed and collected ranges, seeded random configurations.",
          TRUST + " Range lists are sampled, not enumerated; f32 probability compared with relative tolerance 1e-5.", "DESIGN.md §4 C02"),
  "C04": ("online comparison of scoped runs with the unscoped run (position order, per-position multiset fingerprints, exhaustion) over seeded/exhaustive scope pairs and chains; dev-profile child pass",
          "Every scoped run of the real evaluator is compared online with the unscoped run of the same configuration. Quick: all 1177 starts x 8 characteristic ends per configuration, 2,380 random chains, repeated scope() calls (including back to the whole line, the same scope twice, an empty scope), configurations with an empty range, prefix agreement of unscoped and scoped runs for products of range sizes beyond 2^32, and a dev-profile pass (debug assertions). Thorough: all 693,253 (from<=to) pairs for three configurations.",
@@ -35,7 +35,7 @@ CHECKS = {
          "Every string goes through parse::<Rank|Suit|Card|CardPair|HandRangeToken|HandRange>; every Ok value is formatted, expanded, decomposed and handed to the evaluator. Quick: all strings of length <= 3 over a 30-symbol alphabet (with 2/3/4-byte characters and NUL), all 146,523 strings of the seven token shapes with arbitrary ranks, every well-formed token with a multi-byte character at every offset, random strings, comma lists, strings up to 8 MiB, letters in the other case, lists expanding to far more than 65536 entries, weight literals of up to 5000 digits; a dev-profile batch repeats a slice of all of it in child processes. Thorough: length <= 4 and weights on every shape string.",
          TRUST + " 'All strings over Unicode' is sampled beyond the enumerated sets.", "DESIGN.md §4 C09"),
  "C10": ("online invariant monitor on every combo of every parsed token/range and on showdowns enumerated from parsed ranges",
-         "Every Ok result of the token and range parsers is checked for two different cards and a weight in [0,1]; showdowns enumerated from the parsed range (alone and against itself) for probability in [0,1] and distinct cards. Strings: all 22,222 weight literals [01](.d{1,4})? on each of the seven token shapes, all 52x52 two-card strings, shape strings with arbitrary ranks and weights, random strings and lists, letters in the other case, weight literals of up to 5000 digits.",
+         "Every Ok result of the token and range parsers is checked for two different cards and a weight in [0,1]; showdowns enumerated from the parsed range (alone and against itself) for probability in [0,1] and distinct cards. Strings: all 22,222 weight literals [01](.d{1,4})? and about 120 other float spellings (signs, exponents, inf/nan, bare dots, separators, hex, other scripts) on each of the seven token shapes, all 52x52 two-card strings, shape strings with arbitrary ranks and weights, random strings and lists, letters in the other case, weight literals of up to 5000 digits.",
          TRUST + " Any answer that keeps the invariant is accepted (reject, drop, or valid weight).", "DESIGN.md §4 C10"),
  "C11": ("metamorphic runtime monitor: integer win/tie tallies of complete equity loops compared under all 24 suit permutations and all player orders",
          "The README equity loop is run on the real evaluator for a configuration and for each transformed configuration; the k-way win tallies must be identical (permuted with the players); every showdown must have flagged winners == winner_len() >= 1. Quick: 14 configurations (2-4 players, suit-specific combos, weights) x (23 relabellings + all player orders + combinations), 17- and 20-seat tables, notation-built ranges naming combos in both card orders, configurations with an empty seat, and a share of the transformed runs evaluated in lockstep with the original on one thread.",
